@@ -124,4 +124,98 @@ theorem estCbrtU64_regenerated : estCbrtU64 = estCbrtU64G := by funext n; rfl
 /-- `KBITS` of the two `u128` steps as the model packs its operands (`2^32` / `2^22`, `2^(KBITS−1)`, `2^(KBITS+1)`, `2^(2·KBITS)`) -/
 theorem u128_kbits_regenerated : Gen.sqrt_u128_KBITS = 32 ∧ Gen.cbrt_u128_KBITS = 22 := by decide
 
+/-! ### Round 6: the two `u128` steps with every shift amount, mask width and small multiplier regenerated
+
+`normSqrtU128G` / `normCbrtU128G` are `normSqrtU128` / `normCbrtU128` of Model/NT/PrimRoot.lean with each literal that the
+source writes as an expression in `KBITS` / `u64::BITS` (or as a plain literal: `>> 63`, `>> 66`, `>>= 1`, `>> 3`, `3 *`,
+`.pow(2)`, `.pow(3)`, the `while r < 0` update) replaced by the definition regenerated from that very statement
+(vlib/extract_roottabs.py, one statement shape per definition, fails closed).  Equality with the hand model is `rfl`. -/
+
+/-- `normSqrtU128` over the regenerated shift amounts -/
+def normSqrtU128G (n : Nat) : Option (Nat × Nat) := do
+  let a : Nat := n / 2 ^ Gen.sqrt_u128_split
+  let b : Nat := n % 2 ^ 64                                          -- `self & u64::MAX as u128`
+  let (s1, r1) ← normSqrtU64 a
+  let r0 : Nat := r1 * 2 ^ Gen.sqrt_u128_r0_shl % 2 ^ 64 ||| b / 2 ^ Gen.sqrt_u128_r0_shr
+  guardO (decide (s1 ≠ 0))
+  let q : Nat := r0 / s1
+  let u : Nat := r0 % s1
+  let qu : Option (Nat × Nat) :=
+    if q / 2 ^ Gen.sqrt_u128_q_shr > 0 then (do let u' ← ck 64 (u + s1); pure (q - Gen.sqrt_u128_q_dec, u')) else some (q, u)
+  let (q, u) ← qu
+  let s : Nat := s1 * 2 ^ Gen.sqrt_u128_s_shl % 2 ^ 64 ||| q
+  let r : Nat := u * 2 ^ Gen.sqrt_u128_r_shl % 2 ^ 64 ||| b % 2 ^ Gen.sqrt_u128_r_mask
+  let q2 ← ck 64 (q * q)
+  let c : Int := ((u / 2 ^ Gen.sqrt_u128_c_shr % 2 ^ 8 : Nat) : Int) - (if r < q2 then 1 else 0)
+  let r : Nat := (r + 2 ^ 64 - q2) % 2 ^ 64
+  if c < 0 then do
+    let t1 : Nat := r + s
+    let s ← ck 64 ((s : Int) - 1)
+    let t2 : Nat := t1 % 2 ^ 64 + s
+    let c : Int := c + (t1 / 2 ^ 64 : Nat) + (t2 / 2 ^ 64 : Nat)
+    if c < 0 then none else pure (s, c.toNat * 2 ^ Gen.sqrt_u128_c_shl + t2 % 2 ^ 64)
+  else pure (s, c.toNat * 2 ^ Gen.sqrt_u128_c_shl + r)
+
+/-- `cbrtDownLoop` over the regenerated literals of `r += 3 * (c as i128 - 1) * c as i128 + 1; c -= 1` -/
+def cbrtDownLoopG : Nat → Nat → Int → Option (Nat × Int)
+  | 0, c, r => if r < 0 then none else some (c, r)
+  | fuel + 1, c, r =>
+    if r < 0 then
+      (if c = 0 then none
+       else cbrtDownLoopG fuel (c - Gen.cbrt_u128_loop_dec)
+              (r + (Gen.cbrt_u128_loop_mul : Nat) * ((c : Int) - (Gen.cbrt_u128_loop_sub : Nat)) * c + (Gen.cbrt_u128_loop_add : Nat)))
+    else some (c, r)
+
+/-- `normCbrtU128` over the regenerated shift amounts (`leading_zeros() > 0` ⇔ `n < 2^(128 − 1 − 0)`) -/
+def normCbrtU128G (n : Nat) : Option (Nat × Nat) := do
+  let cr : Option (Nat × Nat) :=
+    if n < 2 ^ (127 - Gen.cbrt_u128_lz_gt) then do
+      let a : Nat := n / 2 ^ Gen.cbrt_u128_hi_shr_odd % 2 ^ 64
+      let (c, _) ← normCbrtU64 a
+      let c : Nat := c / 2 ^ Gen.cbrt_u128_c1_shr
+      let c3 ← ck 64 (c * c)
+      let c3 ← ck 64 (c3 * c)
+      let r ← ck 64 (((a / 2 ^ Gen.cbrt_u128_a_shr : Nat) : Int) - c3)
+      pure (c, r)
+    else normCbrtU64 (n / 2 ^ Gen.cbrt_u128_hi_shr % 2 ^ 64)
+  let (c1, r1) ← cr
+  let r0 : Nat := r1 * 2 ^ Gen.cbrt_u128_r0_shl % 2 ^ 128 ||| n / 2 ^ Gen.cbrt_u128_r0_shr % 2 ^ Gen.cbrt_u128_r0_mask
+  let d ← ck 128 (Gen.cbrt_u128_d_mul * (c1 * c1))
+  guardO (decide (d ≠ 0))
+  let q : Nat := r0 / d
+  let u : Nat := r0 % d
+  let c ← ck 64 (c1 * 2 ^ Gen.cbrt_u128_c_shl % 2 ^ 64 + q % 2 ^ 64)
+  let t1 : Nat := u * 2 ^ Gen.cbrt_u128_t1_shl % 2 ^ 128 ||| n % 2 ^ Gen.cbrt_u128_t1_mask
+  let qq ← ck 128 (q * q)
+  let f ← ck 128 (Gen.cbrt_u128_t2_mul * c1 * 2 ^ Gen.cbrt_u128_t2_shl % 2 ^ 128 + q)
+  let t2 ← ck 128 (f * qq)
+  guardO (decide (t1 < 2 ^ 127 ∧ t2 < 2 ^ 127))
+  let (c, r) ← cbrtDownLoopG 8 c ((t1 : Int) - t2)
+  pure (c, r.toNat)
+
+theorem cbrtDownLoop_regenerated : ∀ fuel c r, cbrtDownLoop fuel c r = cbrtDownLoopG fuel c r := by
+  intro fuel
+  induction fuel with
+  | zero => intro c r; rfl
+  | succ k ih =>
+    intro c r
+    show (if r < 0 then (if c = 0 then none else cbrtDownLoop k (c - 1) (r + 3 * ((c : Int) - 1) * c + 1)) else some (c, r))
+       = (if r < 0 then (if c = 0 then none else cbrtDownLoopG k (c - 1) (r + 3 * ((c : Int) - 1) * c + 1)) else some (c, r))
+    rw [ih]
+
+theorem normSqrtU128_regenerated : normSqrtU128 = normSqrtU128G := by funext n; rfl
+
+theorem normCbrtU128_regenerated : normCbrtU128 = normCbrtU128G := by
+  funext n
+  have h : cbrtDownLoopG = cbrtDownLoop := by funext f c r; exact (cbrtDownLoop_regenerated f c r).symm
+  unfold normCbrtU128G
+  rw [h]
+  rfl
+
+/-- the exponents of the `pow` calls and the `KBITS`-derived amounts are the ones the source writes -/
+theorem u128_step_amounts_regenerated :
+    Gen.cbrt_u128_c1_pow = 3 ∧ Gen.cbrt_u128_d_pow = 2 ∧ Gen.cbrt_u128_t2_pow = 2 ∧
+    Gen.sqrt_u128_r0_shl = Gen.sqrt_u128_KBITS - 1 ∧ Gen.sqrt_u128_r0_shr = Gen.sqrt_u128_KBITS + 1 ∧
+    Gen.cbrt_u128_r0_shr = 2 * Gen.cbrt_u128_KBITS ∧ Gen.cbrt_u128_t1_shl = 2 * Gen.cbrt_u128_KBITS := by decide
+
 end Dashu.Model.NT
